@@ -6,7 +6,7 @@
    is_von_name = the local function of Person._parse_string;  jr_part, first_part, token_case,
    spec_is_von: Spec/Names.v. *)
 From Pybtex Require Import Base.Prelude Base.PyChar Base.PyStr Model.BibtexStr Model.Names Spec.Names
-  Proofs.NamesSplit Proofs.Names.
+  Proofs.NamesSplit Proofs.Names Proofs.NamesCase.
 
 (* parsing never raises a foreign exception and never diverges, for EVERY string and every
    explicit part argument (the only error left is BibTeXError 'too many nested braces') *)
@@ -82,4 +82,27 @@ Example ex_too_many :
   person_of_string (s2l "a, b, c, d") = Ok (mkPerson [s2l "c"] [s2l "d"] [] [s2l "a"] [s2l "b"], true).
 Proof. vm_compute. auto. Qed.
 Example ex_no_tokens : person_of_string (s2l "~") = Ok (empty_person, false).
+Proof. vm_compute. auto. Qed.
+
+(* each token's case is decided by its first brace-level-0 letter or special character
+   (Spec/Names.v token_case) -- REFUTED for the code as it is: a backslash at brace level 1 that does
+   not open a special character decides "not von" at once (finding FC04a) ... *)
+Theorem token_case_rule_refuted : exists tok, is_von_name tok = Ok false /\ spec_is_von tok = true.
+Proof. exact token_case_rule_refuted_pf. Qed.
+Print Assumptions token_case_rule_refuted.
+
+(* ... and true for every token without such a backslash before the deciding character.
+   Full statement (false, see above):  forall tok b, is_von_name tok = Ok b -> b = spec_is_von tok *)
+Theorem token_case_rule_partial : forall tok b, no_stray_backslash tok 0 = true ->
+  is_von_name tok = Ok b -> b = spec_is_von tok.
+Proof. exact token_case_rule_partial_pf. Qed.
+Print Assumptions token_case_rule_partial.
+
+Example ex_case_special_lower : no_stray_backslash (s2l "{\'e}X") 0 = true /\ is_von_name (s2l "{\'e}X") = Ok true.
+Proof. vm_compute. auto. Qed.
+Example ex_case_special_upper : no_stray_backslash (s2l "{\'E}x") 0 = true /\ is_von_name (s2l "{\'E}x") = Ok false.
+Proof. vm_compute. auto. Qed.
+Example ex_case_braced_then_lower : no_stray_backslash (s2l "{A}b") 0 = true /\ is_von_name (s2l "{A}b") = Ok true.
+Proof. vm_compute. auto. Qed.
+Example ex_case_refuted : no_stray_backslash (s2l "{a\b}c") 0 = false.
 Proof. vm_compute. auto. Qed.
